@@ -293,6 +293,24 @@ def main(tier, seed):
                     terms.append('(mxs_close %s %d %d [seq lu.1 | lu <- %s] %s && mxs_close %s %d %d [seq lu.2 | lu <- %s] %s)'
                                  % (qlit(F(tol * sc)), n, n, LU, serlit(Ld, p), qlit(F(tol * sc)), n, n, LU, serlit(Ud, p)))
                     metas.append(dict(model='luU', n=n, D=D, direction=p))
+            if ok:
+                # the other two entry points of the same factorisation (separate copies of the recurrence): lu2 -> (piv, L, U), lu_factor -> (packed LU, piv)
+                for entry in ('lu2', 'lu_factor'):
+                    case(entry, dict(meta, op=entry), D >= 2 and n >= 2)
+                    if entry == 'lu2':
+                        PIV, L2, U2 = algopy.UTPM.lu2(mkU(Ad)); L2d, U2d = numpy.asarray(L2.data), numpy.asarray(U2.data)
+                    else:
+                        LUp, PIV = algopy.UTPM.lu_factor(mkU(Ad)); LUd = numpy.asarray(LUp.data)
+                        L2d = numpy.array([[numpy.tril(LUd[d, p], -1) + (numpy.eye(n) if d == 0 else 0) for p in range(P)] for d in range(D)])
+                        U2d = numpy.array([[numpy.triu(LUd[d, p], 0) for p in range(P)] for d in range(D)])
+                    for p in range(P):
+                        piv0 = scipy.linalg.lu_factor(Ad[0, p])[1]
+                        if not numpy.array_equal(numpy.asarray(PIV.data)[0, p], piv0):
+                            viol(entry + ':piv', '%s: pivot vector is not the one scipy.linalg.lu_factor(A_0) returns' % entry, dict(meta, op=entry)); break
+                    else:
+                        dl, du = float(numpy.max(numpy.abs(L2d - Ld))), float(numpy.max(numpy.abs(U2d - Ud)))
+                        if not (dl <= tol * sc and du <= tol * sc):
+                            viol(entry, '%s (n=%d, D=%d): factors differ from the (model-checked) factors of lu by %.2g (L), %.2g (U)' % (entry, n, D, dl, du), dict(meta, op=entry))
         except Exception as e:
             viol('lu:exception:%s' % type(e).__name__, 'lu (n=%d) raises %r' % (n, e), meta, exc=repr(e))
         # ================================================================= eigh: distinct / exactly repeated eigenvalues
